@@ -10,6 +10,12 @@ namespace DafRel.Bridge
 
 open DafRel.PyLite DafRel.Gen
 
+/- Every PyLite primitive unfolds in the bridge proofs, whichever of them a (re)translated method happens to use:
+a rewrite of the Python that swaps `is None` for `is not None`, `<` for `>=`, nests or flattens conditionals
+keeps the lemmas below provable. -/
+attribute [local simp] asInt arith add sub mul min2 max2 cmp lt le gt ge PyLite.eq ne isNone isNotNone truthy
+  pyNot pyIf pyAnd pyOr bind2
+
 /-- `int | None` -/
 def optN : Option Nat → PyV
   | none => .none
